@@ -201,7 +201,7 @@ def _xref_lib(ncomments, lib_cls="LibraryClassWithLongName"):
             "}\n")
 
 
-def _xref_main(ncomments, lib="Lib", lib_cls="LibraryClassWithLongName"):
+def _xref_main(ncomments, lib="Lib", lib_cls="LibraryClassWithLongName", missing_member=False):
     """A module that refers to every member of `_xref_lib` across the module boundary, in every
     syntactic position a query can land on, holding `ncomments` comments of its own."""
     c = lambda i: (f"  // comment number {i} of the using module, longer than 15 bytes\n" if i < ncomments else "")
@@ -209,7 +209,8 @@ def _xref_main(ncomments, lib="Lib", lib_cls="LibraryClassWithLongName"):
             "import { Pair } from std.tuples\nimport { Map } from std.map\nimport { Set } from std.set\n\n"
             f"class MainUserWithLongName(val innerWithLongName: {lib_cls}) : ShowableWithLongName {{\n"
             + c(0) +
-            "  method showItWithLongName(): Str = this.innerWithLongName.showItWithLongName()\n"
+            ("" if missing_member else
+             "  method showItWithLongName(): Str = this.innerWithLongName.showItWithLongName()\n")
             + c(1) +
             "  function useAllWithLongName(enumValueLongName: LibraryEnumWithLongName): int = {\n"
             f"    let firstLocalLongName = {lib_cls}.computeTheAnswerLongName();\n"
@@ -423,6 +424,50 @@ def lsp_leg(ctx, nhist, nops, cap):
     return stats
 
 
+_ST_LIB = ("interface ExporterWithLongName { method exportToJsonDocument(): Str  method anotherLongMethodName(): int }\n"
+           "class HelperClassWithLongName(val fieldWithLongNameX: int) {\n"
+           "  function makeOneLongName(): HelperClassWithLongName = HelperClassWithLongName.init(1)\n}\n")
+_ST_LIB2 = _ST_LIB.replace("exportToJsonDocument", "exportToYamlDocumentNow").replace("makeOneLongName", "makeTwoLongNames")
+
+
+def _st_main(lib="Lib"):
+    # implements the library's interface WITHOUT its members: the stored error's detail names strings
+    # (the missing member names) that occur in no other module
+    return (f"import {{ ExporterWithLongName, HelperClassWithLongName }} from {lib}\n"
+            "class MainImplWithLongName(val h: HelperClassWithLongName) : ExporterWithLongName {\n"
+            "  function run(): int = HelperClassWithLongName.makeOneLongName().fieldWithLongNameX\n}\n")
+
+
+def _st_third(lib="Lib"):
+    return (f"import {{ HelperClassWithLongName }} from {lib}\n"
+            "class ThirdUserWithLongName { function f(): int = HelperClassWithLongName.makeOneLongName().fieldWithLongNameX }\n")
+
+
+def gen_stale_histories(quick):
+    """Deterministic (seed-independent) family for state that one operation leaves behind for the
+    NEXT one (dependency graph, signatures, stored errors): every ordered pair of state-changing
+    operations on an importer / the imported module (rename, remove, edit), the importer holding a
+    stored error whose detail names strings that live only in the imported module; afterwards three
+    edits of an unrelated module (each a recheck + GC round), the full query sweep (which renders
+    every stored error) after every step."""
+    ops = {"rnM": "rn Main MainMoved", "rnL": "rn Lib LibMoved", "rmL": "rm Lib", "rmM": "rm Main",
+           "upL": f"up Lib {hexs(_ST_LIB2)}", "upM": f"up Main {hexs(_st_main() + '// edited with a long comment here' + chr(10))}",
+           "rnLM": "rn Lib Main", "rnMM": "rn Main Main"}
+    first = ["rnM", "rnL", "rnMM"] if quick else list(ops)
+    out = []
+    for a in first:
+        for b in ops:
+            if a == b and a != "upL":
+                continue
+            for third in ([False] if quick else [False, True]):
+                files = f"Lib {hexs(_ST_LIB)} Main {hexs(_st_main())}" + (f" Third {hexs(_st_third())}" if third else "")
+                lines = ["reset", "new " + files, "q", ops[a], "q", ops[b], "q"]
+                for k in range(3):
+                    lines += [f"up Zed {hexs('class ZedUnrelatedModuleNumber%d {}' % k + chr(10))}", "q"]
+                out.append((lines, f"stale {a}->{b}{' +Third' if third else ''}"))
+    return out
+
+
 def model_lines(lines, impl):
     out = []
     for l, a in zip(lines, impl):
@@ -587,7 +632,7 @@ def run(ctx):
         jobs.append((gen_history(r, r.range(3, nops), True), True, f"generated seed={ctx.seed} #{j}"))
     for n in ([93, 94] if ctx.quick else [1, 92, 93, 94, 95, 100, 101, 150, 201]):  # + 7 std modules: totals 100, 101 are the slice boundary
         jobs.append((gen_many_modules(rng.fork(), n), True, f"many-modules n={n}"))
-    for xl, xlabel in gen_xref_histories():
+    for xl, xlabel in gen_xref_histories() + gen_stale_histories(ctx.quick):
         jobs.append((xl, True, xlabel))
 
     def work(job):
